@@ -33,6 +33,10 @@ def project_list(tier):
     out.append(("ext:o", ("f_prodcons", {"consumer": "amend_first"}), "o.txt"))
     out.append(("ext:extra", ("f_amend", {"extra": "static"}), "extra.txt"))
     out.append(("ext:tree", ("f_treeamend", {}), "t/x.txt"))
+    # the same, but the input is replaced (rename) by a file with other content and the same
+    # size, mode and modification time: only the inode and the digest tell
+    out.append(("swap:src", ("f_prodcons", {"consumer": "amend_first"}), "swap:src.txt"))
+    out.append(("swap:extra", ("f_amend", {"extra": "static"}), "swap:extra.txt"))
     # a second build in which the plan runs again and re-declares the producer (a new version)
     # only after the consumer (a new version too) was re-declared and may already run: the old
     # o.txt is on disk, detached and BUILT, while the consumer amends it
@@ -58,7 +62,10 @@ def env_events_for(ext, ties):
             def fn(s, ext=ext):
                 s.flags.add("ext")
                 s.ext_at = s.nev
-                s.ext_write(ext, f"changed by user at {s.nev}\n")
+                if ext.startswith("swap:"):
+                    s.ext_swap(ext[5:])
+                else:
+                    s.ext_write(ext, f"changed by user at {s.nev}\n")
             evs.append(EnvEvent(f"write {ext}", fn))
         if ties and sim.handler is not None and sim.running and "tie" not in sim.flags:
             def tie(s):
